@@ -1,5 +1,5 @@
 CONSTANTS H = 2 W = 3 FixMarks = TRUE FixWide = TRUE AllowAmbiguous = FALSE
-Alphabet <- AImg
+Alphabet <- AImgSmall
 INIT Init
 NEXT Next
 INVARIANT Shown
